@@ -109,6 +109,8 @@ def handleMem (line : String) : String :=
             let (ss', as) := specApply cfg ss op
             let diffs := if ai != goAns && relevant op && diffs.length < 3 then diffs ++ [s!"op{i}:go={goAns}:model={ai}"] else diffs
             let viols := if as != goAns && relevant op && viols.length < 3 then viols ++ [s!"op{i}:go={goAns}:spec={as}"] else viols
+            -- C06 stream: an answer to a load that contradicts the documented decoder is the decoder's business
+            let viols := if flavour == "6" && as != goAns && !isStatOp op && !viols.contains "DECODER" then viols ++ ["DECODER"] else viols
             let touchedW := if op.written.isSome then add touchedW ci else touchedW
             let stW := if op.written.isSome then add stW cs else stW
             let isAccess := match op with | .stat _ | .statL _ => false | _ => true
@@ -136,6 +138,8 @@ def handleMem (line : String) : String :=
           let sexpS := "S" ++ imageStr k sta (fun c => toString (ss.stat c)) (fun c => ss.stat c == 0) sctlS ++ lutS ss
           let viols := if flavour != "6" && flavour != "7" && sD != sexpD then viols ++ ["image"] else viols
           let viols := if flavour == "6" && sS != sexpS then viols ++ ["stats"] else viols
+          -- C06 stream: the data image contradicts the documented decoder: the counts cannot be judged against it
+          let viols := if flavour == "6" && sD != sexpD && !viols.contains "DECODER" then viols ++ ["DECODER"] else viols
           -- C07 self-consistency: every image after a restore equals the image at the latest snapshot
           let imgs := ((sI.drop 1).toString.splitOn " ; ").map String.trim
           let (_, badRestore) := imgs.foldl (fun (acc : String × Bool) (im : String) =>
@@ -144,7 +148,7 @@ def handleMem (line : String) : String :=
             else acc) ("", false)
           let viols := if badRestore then viols ++ ["restore-image"] else viols
           let d := if diffs.isEmpty then "agree" else "DIFF " ++ ",".intercalate diffs
-          let v := if viols.isEmpty then "specok" else "VIOL " ++ ",".intercalate (viols.map fun t => s!"C0{flavour}:{t}@{spec}")
+          let v := if viols.isEmpty then "specok" else "VIOL " ++ ",".intercalate (viols.map fun t => if t == "DECODER" then s!"C04:decoder@{spec}" else s!"C0{flavour}:{t}@{spec}")
           s!"{d} | {v} | mem{flavour}"
     | _, _ => "bad"
   | _ => "bad"
